@@ -1,6 +1,7 @@
 """PRNG contract (assumed, DESIGN 4.3).  Keys are terms of the algebraic datatype
-    Key = root(seed) | child(parent, i)
+    Key = root(seed) | child(parent, i) | folded(parent, data)
 so keys with different derivation paths are distinct.  `split(k, n)[i] = child(k, i)`;
+`fold_in(k, d) = folded(k, d)` (no event: folding does not consume the key, equal data give equal keys);
 `choice(k, a, p)` = a[draw(k, site)] with 0 <= draw < len(a) and p[draw] > 0 (a label of positive
 probability); the dependence on p is not modelled further (a fresh `site` per call).  Every use of a key
 (split or draw) is recorded as a ghost event so that contracts can require 'no key is used twice'."""
@@ -15,6 +16,7 @@ from ..values import SymArray, T, asarray, lift, unwrap0, zdim
 Key = z3.Datatype("Key")
 Key.declare("root", ("seed", z3.IntSort()))
 Key.declare("child", ("parent", Key), ("index", z3.IntSort()))
+Key.declare("folded", ("folded_from", Key), ("data", z3.IntSort()))
 Key = Key.create()
 
 _DRAW = z3.Function("draw", Key, z3.IntSort(), z3.IntSort())
@@ -35,6 +37,13 @@ def split(key, num=2):
     _event("split", k)
     n = zdim(num)
     return SymArray((n,), lambda idx: Key.child(k, idx[0]), "key")
+
+
+def fold_in(key, data):
+    d = lift(data)
+    if d.sort() != z3.IntSort():
+        raise Undecided("fold_in with non-integer data")
+    return T(Key.folded(lift(key), d))
 
 
 def choice(key, a, p=None):
